@@ -461,6 +461,9 @@ package fsutil
 //@   at call stack.push: pending_parent_on_top: len(metadataParents.items) == 0 || metadataParents.items[len(metadataParents.items)-1].path == filepath.Dir(cp.path)
 //@   ensures eof: result == nil ==> arg(RecvDone, 0) == io.EOF
 //@   at call Validator.HandleChange: id_is_stat_position: !metaOnly && specCanRequest(p.Stat.Mode) ==> haskey(r.files, path) && r.files[path] == uint32(cnt(StatRecv) - old(cnt(StatRecv)) - 1)
+// an ancestor that was held back is forwarded once: after the pending ancestors were replayed for
+// a selected entry none is left pending when the entry itself is forwarded
+//@   at call dynamicWalker.update#2: pending_ancestors_flushed: metadataTransfer ==> len(metadataParents.items) == 0
 //@   at call dynamicWalker.update: validated_before_forward: arg1 != nil ==> when(OrderOK) > when(RecvMsg) && when(LinkOK) > when(RecvMsg)
 //@   at call io.WriteCloser.Write: data_to_registered_pipe: haskey(r.pipes, p.ID) && len(p.Data) != 0
 //@   at call io.WriteCloser.Close: close_on_empty_payload: haskey(r.pipes, p.ID) && len(p.Data) == 0
@@ -588,9 +591,20 @@ package fsutil
 //@   requires exclusive_callbacks: dw.opt.SyncDataCb == nil || dw.opt.AsyncDataCb == nil
 //@   modifies heap
 //@   effects *
+// what is written to disk is the stat the receive-side filter saw and may have rewritten (its own
+// copy, never the stat as sent): for the metadata of an existing directory, of a new entry, for
+// the special-file arm and for the content request alike
+//@   at call rewriteMetadata: the_filtered_copy_is_applied: arg1 == statCopy && arg1 != stat
+//@   at call handleTarTypeBlockCharFifo: the_filtered_copy_is_applied: arg1 == statCopy
+//@   at call DiskWriter.requestAsyncFileData: the_filtered_copy_is_applied: arg4 == statCopy
 //@   ensures passerr: err != nil ==> retErr == err && clk() == old(clk())
 //@   ensures lstat_only: cnt(Stat) == old(cnt(Stat))
-//@   ensures inspect: cnt(Lstat) > old(cnt(Lstat)) ==> arg(Lstat, 0) == filepath.Join(old(dw.dest), p)
+// the destination is inspected without following links: the entry's own path first, and - for a
+// hard link - the link source (F29: a symlink left there from an earlier state of the destination
+// would be linked as such and the new name's metadata applied through it)
+//@   at call os.Lstat#0: inspects_the_entry_itself: arg0 == filepath.Join(dw.dest, p)
+//@   at call os.Lstat#1: inspects_the_link_source: statCopy.Linkname != "" && arg0 == filepath.Join(dw.dest, statCopy.Linkname)
+//@   at call os.Link: link_source_is_not_a_symlink: cnt(Lstat) == old(cnt(Lstat)) + 2 && arg(Lstat, 0) == arg0 && (arg(LstatRes, 1) != nil || arg(LstatRes, 0).Mode() & os.ModeSymlink == 0)
 //@   ensures del: err == nil && kind == ChangeKindDelete && retErr == nil && cnt(RemoveAll) > old(cnt(RemoveAll)) ==> cnt(RemoveAll) == old(cnt(RemoveAll)) + 1 && arg(RemoveAll, 0) == filepath.Join(old(dw.dest), p) && (old(dw.opt.NotifyCb) != nil ==> cnt(Notify) == old(cnt(Notify)) + 1 && arg(Notify, 0) == kind && arg(Notify, 1) == p && when(RemoveAll) < when(Notify))
 //@   ensures del_filtered: err == nil && kind == ChangeKindDelete && retErr == nil && cnt(RemoveAll) == old(cnt(RemoveAll)) ==> cnt(Notify) == old(cnt(Notify)) && old(dw.filter) != nil && !arg(FilterCall, 1)
 //@   ensures del_only: kind == ChangeKindDelete ==> cnt(Lstat) == old(cnt(Lstat)) && cnt(Rename) == old(cnt(Rename)) && cnt(Mkdir) == old(cnt(Mkdir)) && cnt(GoSpawn) == old(cnt(GoSpawn))
@@ -598,8 +612,9 @@ package fsutil
 //@   ensures lstat_after_filter: err == nil && kind != ChangeKindDelete && retErr == nil && (old(dw.filter) == nil || arg(FilterCall, 1)) ==> cnt(Lstat) > old(cnt(Lstat))
 //@   ensures dir_over_dir: err == nil && kind != ChangeKindDelete && retErr == nil && cnt(Lstat) > old(cnt(Lstat)) && cnt(Mkdir) == old(cnt(Mkdir)) && fi.IsDir() ==> arg(LstatRes, 0) != nil && arg(LstatRes, 0).IsDir() && cnt(RemoveAll) == old(cnt(RemoveAll)) && cnt(Rename) == old(cnt(Rename)) && cnt(Utimes) > old(cnt(Utimes)) && arg(Utimes, 0) == filepath.Join(old(dw.dest), p)
 //@   ensures meta_before_rename: kind != ChangeKindDelete && retErr == nil && cnt(Rename) > old(cnt(Rename)) ==> when(Utimes) < when(Rename) && cnt(Utimes) > old(cnt(Utimes)) && arg(Rename, 1) == filepath.Join(old(dw.dest), p) && arg(Utimes, 0) == arg(Rename, 0)
-//@   ensures remove_on_switch: kind != ChangeKindDelete && retErr == nil && cnt(RemoveAll) > old(cnt(RemoveAll)) ==> arg(RemoveAll, 0) == filepath.Join(old(dw.dest), p) && arg(LstatRes, 0) != nil && arg(LstatRes, 0).IsDir() != fi.IsDir() && when(RemoveAll) < when(Rename) && when(Utimes) < when(RemoveAll) && cnt(Rename) > old(cnt(Rename))
-//@   ensures switch_removes: kind != ChangeKindDelete && retErr == nil && cnt(Rename) > old(cnt(Rename)) && arg(LstatRes, 0).IsDir() != fi.IsDir() ==> cnt(RemoveAll) > old(cnt(RemoveAll))
+//@   at call os.RemoveAll#1: obstacle_of_other_type_only: arg0 == destPath && rename && oldFi != nil && oldFi.IsDir() != fi.IsDir() && cnt(Utimes) > old(cnt(Utimes))
+//@   ensures remove_only_with_rename: kind != ChangeKindDelete && retErr == nil && cnt(RemoveAll) > old(cnt(RemoveAll)) ==> arg(RemoveAll, 0) == filepath.Join(old(dw.dest), p) && cnt(Rename) > old(cnt(Rename)) && when(RemoveAll) < when(Rename) && when(Utimes) < when(RemoveAll)
+//@   at call renameFile: obstacle_removed_before_rename: rename && arg1 == destPath && (oldFi.IsDir() != fi.IsDir() ==> cnt(RemoveAll) > old(cnt(RemoveAll)) && arg(RemoveAll, 0) == destPath)
 //@   ensures dir_arm: kind != ChangeKindDelete && fi.IsDir() ==> cnt(Symlink) == old(cnt(Symlink)) && cnt(Link) == old(cnt(Link)) && cnt(OpenFile) == old(cnt(OpenFile)) && cnt(Mknod) == old(cnt(Mknod)) && cnt(GoSpawn) == old(cnt(GoSpawn))
 //@   ensures dir_mode: kind != ChangeKindDelete && retErr == nil && cnt(MkdirOK) > old(cnt(MkdirOK)) ==> fi.IsDir() && arg(Mkdir, 1) == fi.Mode() && haskey(old(dw.dirModTimes), filepath.Join(old(dw.dest), p))
 //@   ensures special_arm: kind != ChangeKindDelete && !fi.IsDir() && specIsSpecial(fi) ==> cnt(Mkdir) == old(cnt(Mkdir)) && cnt(Symlink) == old(cnt(Symlink)) && cnt(Link) == old(cnt(Link)) && cnt(OpenFile) == old(cnt(OpenFile)) && cnt(GoSpawn) == old(cnt(GoSpawn))
@@ -858,6 +873,9 @@ package fsutil
 // through the link bookkeeping: forwarded without link name, or re-wrapped, or already the
 // recorded representative
 //@   at call hardlinkFilter.Walk.fn#0: untouched_only_dirs_and_symlinks: fi.IsDir() || fi.Mode() & os.ModeSymlink != 0
+// ... and every entry that goes through the bookkeeping is remembered under its own path, so that a
+// later member of its group that names it finds it
+//@   at call hardlinkFilter.Walk.fn#1: forwarded_file_remembered: haskey(seenFiles, path) && seenFiles[path] == stat.Path
 //@   at call hardlinkFilter.Walk.fn#1: link_names_a_forwarded_entry: stat.Linkname == "" || isptr(arg1, dirEntryWithStat) || (haskey(seenFiles, stat.Linkname) && seenFiles[stat.Linkname] == stat.Path)
 //@   requires seenFiles != nil
 //@   modifies seenFiles[*], type types.Stat
@@ -1152,6 +1170,9 @@ package fsutil
 //@   requires dw != nil
 //@   effects GroupWait Utimes WaitOK
 //@   posteffect WaitOK() when result == nil
+// the walk that restores the times enters the destination also when that path is a symlink to a
+// directory (F35: WalkDir does not follow a symlink root; a separator-terminated root is resolved)
+//@   at call path/filepath.WalkDir: enters_a_symlinked_destination: len(arg0) > 0 && arg0[len(arg0)-1] == '/'
 //@   at call path/filepath.WalkDir: writers_done_first: cnt(GroupWait) == old(cnt(GroupWait)) + 1
 
 // The identity comparison has something to compare with: unless the receiver merges, the second
